@@ -1,19 +1,28 @@
 // C18 — IniFile / TabularDataFile persist exactly what was set or written.
-//  INI: complete enumeration of file texts (<= N lines over an 8-line alphabet x LF/CRLF x final newline or none)
-//       x set() histories (<= K calls over 5 names x 2 values) x way of writing (destructor / explicit write()),
-//       plus 20-call histories with a write() in the middle. The real IniFile works on a scratch file; a FRESH
-//       IniFile must return every set value and every untouched pre-existing value, and the raw text must keep
-//       comment lines and untouched entries in their relative order. Reference: a plain std:: line parser + std::map.
-//  CSV: complete enumeration of small tables over a 13-cell alphabet + shape macros up to 30x8, written cell-wise
-//       and row-wise (arrays), read back by a fresh TabularDataFile and compared cell for cell.
+//  INI: complete enumeration of file texts (<= N lines over a 10-line alphabet, or over a 7-line structural sub-alphabet
+//       for the longest texts, x LF/CRLF x final newline or none) x set() histories (<= K calls over 5 names x 3 values,
+//       the empty value included) x way of writing: destructor / write() + destructor / write() after every prefix /
+//       write(otherPath) / IniFile(path, false) + write() / assignment through operator[]; plus 20-call histories with a
+//       write() in the middle and fixed long texts (more than 16 lines, lines of 254 and 300 characters). The real
+//       IniFile works on a scratch file; a FRESH IniFile must return every set value and every untouched pre-existing
+//       value, and the raw text must keep comment lines and untouched entries in their relative order.
+//       Reference: a plain std:: line parser + std::map.
+//  CSV: complete enumeration of small tables over a 15-cell alphabet (19 cells for tables of <= 2 cells) + shape macros up
+//       to 30x8, written cell-wise and row-wise (arrays) in three writer configurations (default; ';' with decimal ',';
+//       tab), read back by a fresh TabularDataFile (unconfigured = auto-detection, or given the writer's configuration)
+//       and compared cell for cell.
 //  Two binaries from this file: c18_inicsv (ASan; quick + thorough) and, via c18_deep.cpp (-DC18_DEEP, flavour plain,
-//  thorough only), the largest products (5-line texts x 2 sets, 4-line texts x 3 sets, 3x2 / 2x3 tables).
-//  Case strings: ini:<L|C eol>:<final newline 0/1>:<write() after k sets, -1 = destructor only>:<line indices>:<op indices>
-//                csv:<C cell-wise | A arrays>:<rows>x<cols>:<cell letters a..m, row major>
+//  thorough only), the largest products.
+//  Case strings: ini:<L|C eol>:<final newline 0/1>:<write() after k sets, -1 = destructor only>:<line letters>:<op letters>[:<flags>]
+//                   line letters 0..9 = LINES[], A.. = long lines; flags: o = the write is write(otherPath),
+//                   r = IniFile(path, false) (no automatic save), b = values assigned through operator[] instead of set()
+//                csv:<C cell-wise | A arrays>:<rows>x<cols>:<cell letters a..s, row major>[:<D|S|T writer configuration><a|s reader>]
 #include <asl/IniFile.h>
 #include <asl/TabularDataFile.h>
 #include <asl/Var.h>
 #include <map>
+#include <sys/resource.h>
+#include <sys/mman.h>
 #include "vf.h"
 #include "aslx.h"
 using namespace asl;
@@ -21,12 +30,26 @@ using vf::fmt;
 
 static int C_EVAL, C_DISTINCT;
 static int W_NOEOL, W_NOEOL_ENTRY_LAST, W_CRLF, W_NEWSEC, W_NEWKEY, W_CHANGED, W_SAMEVAL, W_BARE_TOP, W_BARE_SEC, W_REWRITTEN, W_NOTREWRITTEN, W_UNTOUCHED, W_COMMENTS,
-	W_DUPSEC, W_EXPLICIT, W_MIDWRITE, W_SETCHECKS, W_TOPKEYS, W_LONGHIST, W_INDENTED;
-static int W_CSV_QUOTED, W_CSV_NUM, W_CSV_EMPTY, W_CSV_ARRAY, W_CSV_CELLWISE, W_CSV_BIG, W_CSV_CELLS, W_CSV_SEMI, W_CSV_BYNAME;
+	W_DUPSEC, W_EXPLICIT, W_MIDWRITE, W_SETCHECKS, W_TOPKEYS, W_LONGHIST, W_INDENTED, W_EMPTYVAL, W_VALEQ, W_COMMENTEQ, W_INDENTCOMMENT, W_DUPKEYDIFF, W_TWOSECDIFF,
+	W_OTHERPATH, W_NOAUTO, W_VIAINDEX, W_VIAINDEX_CHANGED, W_MANYLINES, W_GROWLINES, W_LONGLINE, W_STRUCT5;
+static int W_CSV_QUOTED, W_CSV_NUM, W_CSV_EMPTY, W_CSV_ARRAY, W_CSV_CELLWISE, W_CSV_BIG, W_CSV_CELLS, W_CSV_SEMI, W_CSV_BYNAME,
+	W_CSV_CFG_SEMI, W_CSV_CFG_TAB, W_CSV_AUTO_NONDEFAULT, W_CSV_READER_CONFIGURED, W_CSV_PLUSEXP, W_CSV_FRACTION15, W_CSV_FLOAT, W_CSV_HEAPSTR, W_CSV_LONGLINE, W_CSV_DECIMAL_COMMA, W_CSV_SIX;
 
 // =============================================================================================== INI
-static const char* LINES[] = { "[a]", "[ab]", "x=1", "y=2", "  z=3", "# c", "; c", "" };
-enum { NLINES = 8 };
+// letters 0..9: the enumerated alphabet; A, B: long lines that only occur in the fixed long texts
+static std::vector<std::string> LINES;
+static void init_lines() {
+	static const char* L[] = { "[a]", "[ab]", "x=1", "y = a=b", "  z=3", "# c", "; x=9", "", "  # c", "x=5" };
+	for (int i = 0; i < 10; i++) LINES.push_back(L[i]);
+	LINES.push_back("# " + std::string(252, 'c'));   // A: a comment of exactly 254 characters (TextFile reads lines in pieces of 254)
+	LINES.push_back("k=" + std::string(298, 'v'));   // B: an entry of 300 characters
+}
+static const char FULL10[] = "0123456789";
+static const char STRUCT7[] = "0123457";    // section headers, three entry shapes, comment, blank: the structural sub-alphabet of the longest texts
+static const char STRUCT6[] = "012457";     // the same without the second entry shape: the 5-line texts
+static int line_index(char ch) { return ch >= 'A' ? 10 + (ch - 'A') : ch - '0'; }
+static char line_letter(int i) { return i < 10 ? char('0' + i) : char('A' + i - 10); }
+
 static const char* NAMES[] = { "a/x", "a/n", "ab/y", "c/k", "x" }; // section "a" is a prefix of section "ab"
 static const char* VALUES[] = { "v", "w w", "" }; // the empty value: a key set to "" reads back as "" whether or not it is stored
 enum { NOPS = 15, NOPS_NONEMPTY = 10 };
@@ -39,10 +62,11 @@ typedef std::pair<std::string, std::string> SK; // (section, key); section "" = 
 struct Tok { char kind; std::string sec, key, val, raw; };
 struct Ref {
 	std::vector<Tok> toks;
-	std::map<SK, std::string> vals;
-	bool hasFirst, topKeys, dupSec;
+	std::map<SK, std::string> vals;                 // the value of the last line that defines the entry
+	std::map<SK, std::set<std::string> > alts;      // every value some line gives the entry (an entry defined twice: the statement does not say which one is "the" value)
+	bool hasFirst, topKeys, dupSec, dupKeyDiff, twoSecDiff, firstEntryIndented;
 	std::string first;
-	Ref() : hasFirst(false), topKeys(false), dupSec(false) {}
+	Ref() : hasFirst(false), topKeys(false), dupSec(false), dupKeyDiff(false), twoSecDiff(false), firstEntryIndented(false) {}
 };
 static bool blank(char c) { return c == ' ' || c == '\t' || c == '\r' || c == '\n'; }
 static std::string trim(const std::string& s) {
@@ -55,6 +79,7 @@ static Ref ref_parse(const std::string& text) {
 	Ref r;
 	std::string sec;
 	std::set<std::string> secs;
+	bool anyEntry = false;
 	size_t p = 0;
 	while (p < text.size()) {
 		size_t e = text.find('\n', p);
@@ -74,12 +99,19 @@ static Ref ref_parse(const std::string& text) {
 		else if (tl.find('=') != std::string::npos) {
 			size_t q = tl.find('=');
 			t.kind = 'E'; t.sec = sec; t.key = trim(tl.substr(0, q)); t.val = trim(tl.substr(q + 1));
-			r.vals[SK(sec, t.key)] = t.val;
+			SK k(sec, t.key);
+			r.vals[k] = t.val;
+			r.alts[k].insert(t.val);
+			if (r.alts[k].size() > 1) r.dupKeyDiff = true;
 			if (sec.empty()) r.topKeys = true;
+			if (!anyEntry) { anyEntry = true; r.firstEntryIndented = blank(line[0]); }
 		}
 		else t.kind = '?';
 		r.toks.push_back(t);
 	}
+	for (std::map<SK, std::string>::iterator a = r.vals.begin(); a != r.vals.end(); ++a)
+		for (std::map<SK, std::string>::iterator b = r.vals.begin(); b != r.vals.end(); ++b)
+			if (a->first.second == b->first.second && a->first.first != b->first.first && a->second != b->second) r.twoSecDiff = true;
 	return r;
 }
 // the sequence the statement wants preserved: comment lines (verbatim) and entries not touched by a set()
@@ -87,15 +119,15 @@ static std::vector<std::string> order_tokens(const Ref& r, const std::set<SK>& t
 	std::vector<std::string> o;
 	for (size_t i = 0; i < r.toks.size(); i++) {
 		const Tok& t = r.toks[i];
-		if (t.kind == 'C') o.push_back("comment '" + t.raw + "'");
+		if (t.kind == 'C') o.push_back(t.raw.size() <= 40 ? "comment '" + t.raw + "'" : "comment '" + t.raw.substr(0, 20) + fmt("...' (%d characters, hash %016llx)", (int)t.raw.size(), (unsigned long long)vf::hash128(t.raw).a));
 		else if (t.kind == 'E' && !touched.count(SK(t.sec, t.key))) o.push_back("entry " + (t.sec.empty() ? t.key : t.sec + "/" + t.key));
 	}
 	return o;
 }
 static std::string join(const std::vector<std::string>& v) { std::string s; for (size_t i = 0; i < v.size(); i++) s += (i ? ", " : "") + v[i]; return "[" + s + "]"; }
-static std::string show(const std::string& s) {
-	std::string o;
-	for (size_t i = 0; i < s.size(); i++) { if (s[i] == '\n') o += "\\n"; else if (s[i] == '\r') o += "\\r"; else o += s[i]; }
+static std::string show(const std::string& s0) {
+	std::string o, s = s0.size() > 700 ? s0.substr(0, 700) + fmt("...(%d bytes)", (int)s0.size()) : s0;
+	for (size_t i = 0; i < s.size(); i++) { if (s[i] == '\n') o += "\\n"; else if (s[i] == '\r') o += "\\r"; else if (s[i] == '\t') o += "\\t"; else o += s[i]; }
 	return "\"" + o + "\"";
 }
 static bool slurp(const std::string& path, std::string& out) {
@@ -113,17 +145,47 @@ static bool spit(const std::string& path, const std::string& s) {
 	bool ok = fwrite(s.data(), 1, s.size(), f) == s.size();
 	return fclose(f) == 0 && ok;
 }
+// CPU seconds (user + system) of the finished worker processes: the cost of a family independent of the load of the machine
+static double cpu_children() {
+	struct rusage ru; getrusage(RUSAGE_CHILDREN, &ru);
+	return ru.ru_utime.tv_sec + ru.ru_stime.tv_sec + (ru.ru_utime.tv_usec + ru.ru_stime.tv_usec) * 1e-6;
+}
+static void family_done(const std::string& tag, double t0, double c0) {
+	vf::setinfo("wall_s." + tag, fmt("%.1f", vf::now_s() - t0));
+	vf::setinfo("cpu_s." + tag, fmt("%.1f", cpu_children() - c0));
+}
+// A defect of the library usually fails in thousands of cases: the first 8 cases of each signature (over all worker processes and families) are listed, the
+// others counted, so that one flood neither stops the run (vf stops after 400 violations of a worker) nor fills the list before the other families were checked.
+static int C_UNLISTED;
+struct SigSlot { uint64_t h; int n; };
+enum { NSIGSLOTS = 256 };
+static SigSlot* SIGS; // shared by the worker processes
+static void init_report() { SIGS = (SigSlot*)mmap(0, NSIGSLOTS * sizeof(SigSlot), PROT_READ | PROT_WRITE, MAP_SHARED | MAP_ANONYMOUS, -1, 0); if (SIGS == MAP_FAILED) { perror("mmap"); exit(2); } }
+static void report(const std::string& sig, const std::string& desc, const std::string& kase) {
+	uint64_t h = vf::hash128(sig).a | 1;
+	bool list = true;
+	for (int i = 0; i < NSIGSLOTS; i++) {
+		SigSlot& sl = SIGS[(h + i) % NSIGSLOTS];
+		uint64_t cur = __sync_val_compare_and_swap(&sl.h, (uint64_t)0, h);
+		if (cur == 0 || cur == h) { list = __sync_fetch_and_add(&sl.n, 1) < 8; break; }
+	}
+	if (list) vf::violation(sig, desc, kase);
+	else vf::add(C_UNLISTED);
+}
 static std::string scratch_file(const char* ext) { return vf::scratch_dir() + fmt("/w%d.%s", vf::worker_id(), ext); }
 
 struct IniCase {
 	bool crlf, finalnl;
 	std::vector<int> lines, ops;
 	int wpos; // -1: written by the destructor only; k >= 0: explicit write() after the k-th set(), destructor later
+	bool other, noauto, viaIndex; // flags o, r, b
+	IniCase() : crlf(false), finalnl(true), wpos(-1), other(false), noauto(false), viaIndex(false) {}
 	std::string str() const {
-		std::string l, o;
-		for (size_t i = 0; i < lines.size(); i++) l += char('0' + lines[i]);
+		std::string l, o, f;
+		for (size_t i = 0; i < lines.size(); i++) l += line_letter(lines[i]);
 		for (size_t i = 0; i < ops.size(); i++) o += char('a' + ops[i]);
-		return fmt("ini:%c:%d:%d:%s:%s", crlf ? 'C' : 'L', finalnl ? 1 : 0, wpos, l.empty() ? "-" : l.c_str(), o.empty() ? "-" : o.c_str());
+		if (other) f += 'o'; if (noauto) f += 'r'; if (viaIndex) f += 'b';
+		return fmt("ini:%c:%d:%d:%s:%s", crlf ? 'C' : 'L', finalnl ? 1 : 0, wpos, l.empty() ? "-" : l.c_str(), o.empty() ? "-" : o.c_str()) + (f.empty() ? "" : ":" + f);
 	}
 	std::string text() const {
 		std::string t, eol = crlf ? "\r\n" : "\n";
@@ -131,10 +193,10 @@ struct IniCase {
 		return t;
 	}
 	std::string history() const {
-		std::string h;
+		std::string h = noauto ? "IniFile(path, false); " : "";
 		for (size_t i = 0; i <= ops.size(); i++) {
-			if ((int)i == wpos) h += "write(); ";
-			if (i < ops.size()) h += fmt("set(\"%s\",\"%s\"); ", op_name(ops[i]), op_val(ops[i]));
+			if ((int)i == wpos) h += other ? "write(otherPath); " : "write(); ";
+			if (i < ops.size()) h += viaIndex ? fmt("ini[\"%s\"] = \"%s\"; ", op_name(ops[i]), op_val(ops[i])) : fmt("set(\"%s\",\"%s\"); ", op_name(ops[i]), op_val(ops[i]));
 		}
 		return h + "~IniFile()";
 	}
@@ -142,7 +204,7 @@ struct IniCase {
 
 struct IniCheck {
 	const IniCase& c;
-	std::string kase, path, text, sfx;
+	std::string kase, path, opath, text, sfx;
 	Ref ref0;
 	std::map<SK, std::string> model;
 	std::set<SK> touched;
@@ -156,19 +218,19 @@ struct IniCheck {
 	}
 	void bad(const std::string& sig, const std::string& desc) {
 		failed = true;
-		vf::violation(sig + sfx, desc + "; file text " + show(text) + "; history: " + c.history(), kase);
+		report(sig + sfx, desc + "; file text " + show(text) + "; history: " + c.history(), kase);
 	}
 	// after the file has been written: raw text keeps order; a fresh IniFile returns all model values
-	void verify(const char* when) {
+	void verify(const std::string& file, const char* when) {
 		std::string raw;
-		if (!slurp(path, raw)) { bad("file_gone", std::string("the file cannot be read ") + when); return; }
+		if (!slurp(file, raw)) { bad("file_gone", std::string("the file cannot be read ") + when); return; }
 		if (raw != text) vf::add(W_REWRITTEN); else vf::add(W_NOTREWRITTEN);
 		Ref out = ref_parse(raw);
 		std::vector<std::string> want = order_tokens(ref0, touched), got = order_tokens(out, touched);
 		for (size_t i = 0; i < want.size(); i++) if (want[i][0] == 'c') vf::add(W_COMMENTS);
 		if (want != got) bad("order", std::string(when) + " the comment lines and untouched entries of the file are " + join(got) + ", originally " + join(want) + "; text on disk " + show(raw));
 		{
-			IniFile fresh(vfx::A(path));
+			IniFile fresh(vfx::A(file));
 			const IniFile& cf = fresh;
 			for (std::map<SK, std::string>::const_iterator it = model.begin(); it != model.end(); ++it) {
 				bool wasSet = touched.count(it->first) != 0;
@@ -176,7 +238,9 @@ struct IniCheck {
 				std::string name = it->first.first.empty() ? it->first.second : it->first.first + "/" + it->first.second;
 				std::string v = vfx::S(cf[vfx::A(name)]);
 				vf::add(W_UNTOUCHED);
-				if (v != it->second) bad("untouched_lost", std::string(when) + " a fresh IniFile returns \"" + v + "\" for the untouched pre-existing " + name + "=" + it->second + "; text on disk " + show(raw));
+				// an entry the text defines more than once with different values: any of them is a "pre-existing value"
+				const std::set<std::string>& okv = ref0.alts[it->first];
+				if (!okv.count(v)) bad("untouched_lost", std::string(when) + " a fresh IniFile returns \"" + v + "\" for the untouched pre-existing " + name + "=" + it->second + "; text on disk " + show(raw));
 			}
 			for (size_t i = 0; i < setnames.size(); i++) {
 				SK rk = resolve(setnames[i]);
@@ -197,93 +261,141 @@ struct IniCheck {
 		vf::add(C_EVAL);
 		text = c.text();
 		path = scratch_file("ini");
+		opath = scratch_file("other.ini");
 		if (!spit(path, text)) { fprintf(stderr, "c18: cannot write scratch file %s\n", path.c_str()); _exit(2); }
+		if (c.other) remove(opath.c_str());
 		ref0 = ref_parse(text);
 		model = ref0.vals;
 		// a name without '/' addresses the "current section": the entries before the first header if there are any, else the first section
 		bareSec = ref0.topKeys ? std::string() : ref0.hasFirst ? ref0.first : std::string();
 		bool lastIsEntry = !ref0.toks.empty() && ref0.toks.back().kind == 'E';
 		if (!c.finalnl && !text.empty()) { vf::add(W_NOEOL); sfx = "_noeol"; if (lastIsEntry) vf::add(W_NOEOL_ENTRY_LAST); }
+		if (c.noauto) sfx += "_noautosave";
+		if (c.other) sfx += "_otherpath";
+		if (c.viaIndex) sfx += "_viaindex";
 		if (c.crlf && text.find('\r') != std::string::npos) vf::add(W_CRLF);
 		if (ref0.dupSec) vf::add(W_DUPSEC);
 		if (ref0.topKeys) vf::add(W_TOPKEYS);
-		if (text.find("  z=3") != std::string::npos) vf::add(W_INDENTED);
+		if (ref0.firstEntryIndented) vf::add(W_INDENTED);
+		if (ref0.dupKeyDiff) vf::add(W_DUPKEYDIFF);
+		if (ref0.twoSecDiff) vf::add(W_TWOSECDIFF);
+		bool longline = false;
+		for (size_t i = 0; i < c.lines.size(); i++) {
+			int li = c.lines[i];
+			if (li == 3) vf::add(W_VALEQ); else if (li == 6) vf::add(W_COMMENTEQ); else if (li == 8) vf::add(W_INDENTCOMMENT); else if (li >= 10) longline = true;
+		}
+		if (longline) vf::add(W_LONGLINE);
+		if (c.lines.size() > 16) vf::add(W_MANYLINES);
+		else if (c.lines.size() > 8 && c.lines.size() + c.ops.size() > 16) vf::add(W_GROWLINES); // up to 16 lines read (the reserved capacity), insertions go beyond
+		if (c.lines.size() == 5 && !longline) vf::add(W_STRUCT5);
 		if (!c.ops.empty() || !model.empty()) vf::add(C_DISTINCT);
 		if (c.ops.size() > 3) vf::add(W_LONGHIST);
+		if (c.noauto) vf::add(W_NOAUTO);
+		if (c.viaIndex) vf::add(W_VIAINDEX);
 		vf::asan_clear();
 		{
-			IniFile ini(vfx::A(path));
+			IniFile ini(vfx::A(path), !c.noauto);
 			if (!ini.ok()) { bad("open", "IniFile::ok() is false for an existing file"); return; }
 			for (size_t i = 0; i <= c.ops.size(); i++) {
 				if ((int)i == c.wpos) {
-					ini.write();
+					if (c.other) { ini.write(vfx::A(opath)); vf::add(W_OTHERPATH); }
+					else ini.write();
 					vf::add(W_EXPLICIT);
 					if (i < c.ops.size()) vf::add(W_MIDWRITE);
 					if (vf::asan_tripped()) { bad("asan", "ASan " + vf::asan_what() + " in write()"); vf::asan_clear(); }
-					verify("after write()");
+					if (c.other) verify(opath, "after write(otherPath), in the other file,");
+					else verify(path, "after write()");
 				}
 				if (i == c.ops.size()) break;
 				std::string name = op_name(c.ops[i]), val = op_val(c.ops[i]);
 				SK k = resolve(name);
 				if (name.find('/') == std::string::npos) vf::add(k.first.empty() ? W_BARE_TOP : W_BARE_SEC);
+				if (val.empty()) vf::add(W_EMPTYVAL);
 				if (!model.count(k)) {
 					bool secExists = k.first.empty();
 					for (size_t j = 0; j < ref0.toks.size(); j++) if (ref0.toks[j].kind == 'S' && ref0.toks[j].sec == k.first) secExists = true;
 					for (std::map<SK, std::string>::iterator it = model.begin(); it != model.end(); ++it) if (it->first.first == k.first) secExists = true;
 					vf::add(secExists ? W_NEWKEY : W_NEWSEC);
 				}
-				else if (model[k] != val) vf::add(W_CHANGED); else vf::add(W_SAMEVAL);
-				ini.set(vfx::A(name), vfx::A(val));
+				else if (model[k] != val) { vf::add(W_CHANGED); if (c.viaIndex) vf::add(W_VIAINDEX_CHANGED); } else vf::add(W_SAMEVAL);
+				if (c.viaIndex) ini[vfx::A(name)] = vfx::A(val);
+				else ini.set(vfx::A(name), vfx::A(val));
 				model[k] = val;
 				touched.insert(k);
 				if (std::find(setnames.begin(), setnames.end(), name) == setnames.end()) setnames.push_back(name);
 			}
 		}
 		if (vf::asan_tripped()) { bad("asan", "ASan " + vf::asan_what() + " in set()/~IniFile()"); vf::asan_clear(); }
-		verify("after destruction");
+		// without automatic save only what an explicit write() at the end of the history stored can be demanded
+		if (c.noauto && (c.other || c.wpos != (int)c.ops.size())) return;
+		verify(path, "after destruction");
 	}
 };
 static void run_ini(const IniCase& c) { IniCheck k(c); k.run(); }
 
 static bool parse_ini_case(const std::string& s, IniCase& c) {
-	// ini:<L|C>:<final>:<wpos>:<lines>:<ops>
+	// ini:<L|C>:<final>:<wpos>:<lines>:<ops>[:<flags>]
 	std::vector<std::string> f;
 	size_t p = 0;
 	while (true) { size_t e = s.find(':', p); f.push_back(s.substr(p, e == std::string::npos ? std::string::npos : e - p)); if (e == std::string::npos) break; p = e + 1; }
-	if (f.size() != 6) return false;
+	if (f.size() != 6 && f.size() != 7) return false;
 	c.crlf = f[1] == "C"; c.finalnl = f[2] == "1"; c.wpos = atoi(f[3].c_str());
-	if (f[4] != "-") for (size_t i = 0; i < f[4].size(); i++) c.lines.push_back(f[4][i] - '0');
-	if (f[5] != "-") for (size_t i = 0; i < f[5].size(); i++) c.ops.push_back(f[5][i] >= 'a' ? f[5][i] - 'a' : f[5][i] - '0');
+	if (f[4] != "-") for (size_t i = 0; i < f[4].size(); i++) { int li = line_index(f[4][i]); if (li < 0 || li >= (int)LINES.size()) return false; c.lines.push_back(li); }
+	if (f[5] != "-") for (size_t i = 0; i < f[5].size(); i++) { int op = f[5][i] >= 'a' ? f[5][i] - 'a' : f[5][i] - '0'; if (op < 0 || op >= NOPS) return false; c.ops.push_back(op); }
+	if (f.size() == 7) { c.other = f[6].find('o') != std::string::npos; c.noauto = f[6].find('r') != std::string::npos; c.viaIndex = f[6].find('b') != std::string::npos; }
 	return true;
 }
 
 // =============================================================================================== CSV
-struct Cell { bool num; bool isint; double d; const char* s; };
-static const Cell CELLS[] = {
-	{ true, true, 1, "1" }, { true, false, -2.5, "-2.5" }, { true, false, 1e-7, "1e-7" }, { true, false, 123456789012345.0, "123456789012345" },
-	{ false, false, 0, "" }, { false, false, 0, "a" }, { false, false, 0, "," }, { false, false, 0, ";" }, { false, false, 0, "\"" }, { false, false, 0, "'" },
-	{ false, false, 0, " " }, { false, false, 0, "a,b" }, { false, false, 0, "\"q\"" } };
-enum { NCELLS = 13 };
+struct Cell { char kind; double d; std::string s; }; // kind i = int, d = double (NUMBER, written %.15g), f = float (FLOAT, written %.7g), s = string
+static std::vector<Cell> CELLS;
+static void init_cells() {
+	static const Cell C[] = {
+		{ 'i', 1, "1" }, { 'd', -2.5, "-2.5" }, { 'd', 1e-7, "1e-7" }, { 'd', 123456789012345.0, "123456789012345" },
+		{ 's', 0, "" }, { 's', 0, "a" }, { 's', 0, "," }, { 's', 0, ";" }, { 's', 0, "\"" }, { 's', 0, "'" },
+		{ 's', 0, " " }, { 's', 0, "a,b" }, { 's', 0, "\"q\"" },
+		{ 'd', 1e20, "1e20" }, { 'd', 0.123456789012345, "0.123456789012345" },                                // n o: a '+' exponent, 15 fractional digits
+		{ 'f', 0.1f, "0.1f" },                                                                                  // p: a float (rendered with %.7g)
+		{ 's', 0, "abcdefghi" },                                                                                // q: 9 characters: stored by Var on the heap
+		{ 's', 0, "say \"a;b,c\" and 'x', then two  blanks.." },                                                // r: 40 characters
+		{ 's', 0, "\t" } };                                                                                     // s: the separator of the tab configuration
+	for (size_t i = 0; i < sizeof C / sizeof C[0]; i++) CELLS.push_back(C[i]);
+}
+enum { NCELLS = 19 };
+static const char CSV15[] = "abcdefghijklmno", CSV19[] = "abcdefghijklmnopqrs";
+static const char CSV9[] = "abenfghil"; // 6-cell tables: 1, -2.5, "", 1e20, a, ",", ";", "\"", "a,b"
 
 static Var cell_var(const Cell& c) {
-	if (c.num) return c.isint ? Var((int)c.d) : Var(c.d);
+	if (c.kind == 'i') return Var((int)c.d);
+	if (c.kind == 'd') return Var(c.d);
+	if (c.kind == 'f') return Var((float)c.d);
 	return Var(vfx::A(c.s));
 }
-static std::string cell_show(const Cell& c) { return c.num ? fmt("number %s", c.s) : fmt("string <%s>", c.s); }
+static std::string cell_show(const Cell& c) { return c.kind != 's' ? fmt("number %s", c.s.c_str()) : "string <" + show(c.s).substr(1, show(c.s).size() - 2) + ">"; }
 
-// mode 'C' = cell by cell, 'A' = each row as one array; reader 'D' = data(), 'N' = nextRow() + operator[]
-static void run_csv(char mode, int R, int C, const std::string& cells) {
-	std::string kase = fmt("csv:%c:%dx%d:%s", mode, R, C, cells.c_str());
+// mode 'C' = cell by cell, 'A' = each row as one array; reader: data() for small tables, nextRow() + operator[] (index and name) for the others
+// cfg 'D' = default (',' '.'), 'S' = setSeparator(';') + setDecimal(','), 'T' = setSeparator('\t'); rd 'a' = unconfigured reader (auto-detection), 's' = reader given the writer's settings
+static void csv_configure(TabularDataFile& f, char cfg) {
+	if (cfg == 'S') { f.setSeparator(';'); f.setDecimal(','); }
+	else if (cfg == 'T') f.setSeparator('\t');
+}
+static void run_csv(char mode, int R, int C, const std::string& cells, char cfg = 'D', char rd = 'a') {
+	std::string kase = fmt("csv:%c:%dx%d:%s", mode, R, C, cells.c_str()) + (cfg == 'D' && rd == 'a' ? std::string() : fmt(":%c%c", cfg, rd));
 	vf::cur(kase);
 	vf::add(C_EVAL); vf::add(C_DISTINCT);
 	std::string path = scratch_file("csv");
 	remove(path.c_str());
 	bool big = R > 3 || C > 3;
 	if (big) vf::add(W_CSV_BIG);
+	if (R * C == 6) vf::add(W_CSV_SIX);
 	vf::add(mode == 'A' ? W_CSV_ARRAY : W_CSV_CELLWISE);
+	if (cfg == 'S') vf::add(W_CSV_CFG_SEMI); else if (cfg == 'T') vf::add(W_CSV_CFG_TAB);
+	if (cfg != 'D') vf::add(rd == 'a' ? W_CSV_AUTO_NONDEFAULT : W_CSV_READER_CONFIGURED);
+	std::string sfx = cfg == 'S' ? "_semicolon" : cfg == 'T' ? "_tab" : "";
 	vf::asan_clear();
 	{
 		TabularDataFile f(vfx::A(path));
+		csv_configure(f, cfg);
 		Array<String> cols;
 		for (int c = 0; c < C; c++) cols << vfx::A(fmt("c%d", c));
 		f.columns(cols);
@@ -297,12 +409,14 @@ static void run_csv(char mode, int R, int C, const std::string& cells) {
 			else for (int c = 0; c < C; c++) f << cell_var(CELLS[cells[r * C + c] - 'a']);
 		}
 	}
-	if (vf::asan_tripped()) { vf::violation("csv_asan", "ASan " + vf::asan_what() + " while writing the table", kase); vf::asan_clear(); }
+	if (vf::asan_tripped()) { report("csv_asan" + sfx, "ASan " + vf::asan_what() + " while writing the table", kase); vf::asan_clear(); }
 	std::string raw; slurp(path, raw);
+	if (big) { size_t p = 0; while (p < raw.size()) { size_t e = raw.find('\n', p); if (e == std::string::npos) e = raw.size(); if (e - p >= 255) { vf::add(W_CSV_LONGLINE); break; } p = e + 1; } }
 	std::vector<std::vector<Var> > got;
 	std::vector<std::vector<Var> > byname;
 	{
 		TabularDataFile g(vfx::A(path));
+		if (rd == 's') csv_configure(g, cfg);
 		if (!big) {
 			Array<Array<Var> > d = g.data();
 			for (int r = 0; r < d.length(); r++) { got.push_back(std::vector<Var>()); for (int c = 0; c < d[r].length(); c++) got.back().push_back(d[r][c]); }
@@ -314,10 +428,10 @@ static void run_csv(char mode, int R, int C, const std::string& cells) {
 			for (int c = 0; c < C; c++) byname.back().push_back(g[vfx::A(fmt("c%d", c))]);
 		}
 	}
-	if (vf::asan_tripped()) { vf::violation("csv_asan", "ASan " + vf::asan_what() + " while reading the table back; file " + show(raw), kase); vf::asan_clear(); }
-	if ((int)got.size() != R) { vf::violation("csv_rows", fmt("%d rows written, %d rows read back; file ", R, (int)got.size()) + show(raw), kase); return; }
+	if (vf::asan_tripped()) { report("csv_asan" + sfx, "ASan " + vf::asan_what() + " while reading the table back; file " + show(raw), kase); vf::asan_clear(); }
+	if ((int)got.size() != R) { report("csv_rows" + sfx, fmt("%d rows written, %d rows read back; file ", R, (int)got.size()) + show(raw), kase); return; }
 	for (int r = 0; r < R; r++) {
-		if ((int)got[r].size() != C) { vf::violation("csv_cols", fmt("row %d written with %d cells is read back with %d cells; file ", r, C, (int)got[r].size()) + show(raw), kase); return; }
+		if ((int)got[r].size() != C) { report("csv_cols" + sfx, fmt("row %d written with %d cells is read back with %d cells; file ", r, C, (int)got[r].size()) + show(raw), kase); return; }
 		for (int c = 0; c < C; c++) {
 			const Cell& e = CELLS[cells[r * C + c] - 'a'];
 			vf::add(W_CSV_CELLS);
@@ -326,23 +440,29 @@ static void run_csv(char mode, int R, int C, const std::string& cells) {
 				if (via) vf::add(W_CSV_BYNAME);
 				std::string gs;
 				bool ok;
-				if (e.num) {
+				if (e.kind != 's') {
 					vf::add(W_CSV_NUM);
+					if (e.kind == 'f') vf::add(W_CSV_FLOAT);
+					if (e.d == 1e20) vf::add(W_CSV_PLUSEXP);
+					if (e.s.size() == 17 && e.s[1] == '.') { vf::add(W_CSV_FRACTION15); if (cfg == 'S') vf::add(W_CSV_DECIMAL_COMMA); }
 					ok = v.is(Var::NUMBER);
-					if (ok) { double x = v; gs = fmt("number %.17g", x); ok = fmt("%.15g", x) == fmt("%.15g", e.d); }
+					// numbers must agree to the digits the writer prints: 15 significant digits (7 for a float)
+					const char* prec = e.kind == 'f' ? "%.7g" : "%.15g";
+					if (ok) { double x = v; gs = fmt("number %.17g", x); ok = fmt(prec, x) == fmt(prec, e.d); }
 					else gs = v.is(Var::STRING) ? std::string("string <") + *v + ">" : std::string("a value of type ") + fmt("%d", (int)v.type());
 				}
 				else {
-					if (!e.s[0]) vf::add(W_CSV_EMPTY);
-					if (strchr(e.s, ',') || strchr(e.s, '"')) vf::add(W_CSV_QUOTED);
-					if (strchr(e.s, ';')) vf::add(W_CSV_SEMI);
+					if (e.s.empty()) vf::add(W_CSV_EMPTY);
+					if (e.s.find(',') != std::string::npos || e.s.find('"') != std::string::npos) vf::add(W_CSV_QUOTED);
+					if (e.s.find(';') != std::string::npos) vf::add(W_CSV_SEMI);
+					if (e.s.size() >= 8) vf::add(W_CSV_HEAPSTR);
 					ok = v.is(Var::STRING) && std::string(*v) == e.s;
 					if (v.is(Var::STRING)) gs = std::string("string <") + *v + ">";
 					else if (v.is(Var::NUMBER)) { double x = v; gs = fmt("number %.17g", x); }
 					else gs = fmt("a value of type %d", (int)v.type());
 				}
 				if (!ok) {
-					vf::violation(e.num ? "csv_number" : "csv_string", fmt("cell (%d,%d)%s written as %s is read back as %s; file ", r, c, via ? " (by column name)" : "", cell_show(e).c_str(), gs.c_str()) + show(raw), kase);
+					report((e.kind != 's' ? "csv_number" : "csv_string") + sfx, fmt("cell (%d,%d)%s written as %s is read back as %s; file ", r, c, via ? " (by column name)" : "", cell_show(e).c_str(), gs.c_str()) + show(raw), kase);
 					return;
 				}
 			}
@@ -352,155 +472,261 @@ static void run_csv(char mode, int R, int C, const std::string& cells) {
 
 // =============================================================================================== driver
 static void run_case(const std::string& k) {
-	if (k.compare(0, 4, "ini:") == 0) { IniCase c; if (parse_ini_case(k, c)) run_ini(c); }
+	if (k.compare(0, 4, "ini:") == 0) { IniCase c; if (parse_ini_case(k, c)) run_ini(c); else fprintf(stderr, "c18: cannot parse case %s\n", k.c_str()); }
 	else if (k.compare(0, 4, "csv:") == 0) {
-		char mode; int R, C; char buf[400] = "";
-		if (sscanf(k.c_str(), "csv:%c:%dx%d:%399s", &mode, &R, &C, buf) >= 3) run_csv(mode, R, C, buf);
-	}
-}
-
-// all set() histories of length <= K, all ways of writing
-static void ini_histories(IniCase& c, int K, bool allWritePositions, int nops = NOPS_NONEMPTY) {
-	uint64_t n = 1;
-	for (int len = 0; len <= K; len++) {
-		for (uint64_t i = 0; i < n; i++) {
-			c.ops.clear();
-			uint64_t x = i;
-			bool hasEmpty = false;
-			for (int j = 0; j < len; j++) { c.ops.push_back((int)(x % nops)); if (c.ops.back() >= NOPS_NONEMPTY) hasEmpty = true; x /= nops; }
-			if (nops > NOPS_NONEMPTY && !hasEmpty) continue; // done by the plan over the non-empty values
-			c.wpos = -1; run_ini(c);
-			for (int w = allWritePositions ? 0 : len; w <= len; w++) { c.wpos = w; run_ini(c); }
-		}
-		n *= nops;
+		std::vector<std::string> f;
+		size_t p = 0;
+		while (true) { size_t e = k.find(':', p); f.push_back(k.substr(p, e == std::string::npos ? std::string::npos : e - p)); if (e == std::string::npos) break; p = e + 1; }
+		int R = 0, C = 0;
+		if (f.size() < 4 || f[1].size() != 1 || sscanf(f[2].c_str(), "%dx%d", &R, &C) != 2 || (int)f[3].size() != R * C) { fprintf(stderr, "c18: cannot parse case %s\n", k.c_str()); return; }
+		for (size_t i = 0; i < f[3].size(); i++) if (f[3][i] < 'a' || f[3][i] >= 'a' + NCELLS) { fprintf(stderr, "c18: cannot parse case %s\n", k.c_str()); return; }
+		char cfg = f.size() > 4 && f[4].size() == 2 ? f[4][0] : 'D', rd = f.size() > 4 && f[4].size() == 2 ? f[4][1] : 'a';
+		run_csv(f[1][0], R, C, f[3], cfg, rd);
 	}
 }
 
 #ifdef C18_DEEP
 static const char* PART = "c18_deep";
-#define OTHER_PART_W "not_in_this_part." // witnesses of branches only the ASan part c18_inicsv exercises (20-set macros, shape macros)
+#define OTHER_PART_W "not_in_this_part." // witnesses of branches only the ASan part c18_inicsv exercises
+#define DEEP_ONLY_W "w."                // witnesses of families only this part enumerates
 #else
 static const char* PART = "c18_inicsv";
 #define OTHER_PART_W "w."
+#define DEEP_ONLY_W "not_in_this_part."
 #endif
 
-struct Plan { int nlmin, nl, k; bool allw; bool withEmpty; }; // withEmpty: only the histories that set at least one empty value (the others belong to the plain plan)
-// every text of nlmin..nl lines x {LF, CRLF} x {final newline, none}; every history of <= k sets; written by the destructor
-// and by write() after the last set (allw: after every prefix of the history)
-static void ini_plan(const Plan& pl) {
-	uint64_t ntexts = 0, pw = 1;
-	std::vector<uint64_t> start; // first index of each length
-	for (int l = 0; l <= pl.nl; l++) { start.push_back(ntexts); if (l >= pl.nlmin) ntexts += pw; pw *= NLINES; }
-	start.push_back(ntexts);
-	if (vf::deadline_passed()) { vf::cap_hit(fmt("deadline before INI plan lines<=%d sets<=%d", pl.nl, pl.k)); return; }
-	double t0 = vf::now_s();
-	vf::parallel(ntexts * 4, [&](uint64_t it) {
-		if (vf::deadline_passed()) { static bool said = false; if (!said) { said = true; vf::cap_hit("deadline inside INI enumeration"); } return; }
-		uint64_t ti = it / 4; int var = (int)(it % 4);
+// ---- text sets: every text of nlmin..nl lines over an alphabet of line letters, or a fixed list of texts
+struct TextSet {
+	std::string alpha; int nlmin, nl;
+	std::vector<std::string> fixed;
+	std::vector<uint64_t> start;
+	uint64_t n;
+	TextSet(const char* a, int lo, int hi) : alpha(a), nlmin(lo), nl(hi), n(0) {
+		uint64_t pw = 1;
+		for (int l = 0; l <= nl; l++) { start.push_back(n); if (l >= nlmin) n += pw; pw *= alpha.size(); }
+		start.push_back(n);
+	}
+	explicit TextSet(const std::vector<std::string>& f) : nlmin(0), nl(0), fixed(f), n(f.size()) {}
+	void get(uint64_t ti, std::vector<int>& lines) const {
+		lines.clear();
+		if (!fixed.empty()) { for (size_t i = 0; i < fixed[ti].size(); i++) lines.push_back(line_index(fixed[ti][i])); return; }
 		int len = 0; while (start[len + 1] <= ti) len++;
 		uint64_t x = ti - start[len];
+		for (int j = 0; j < len; j++) { lines.push_back(line_index(alpha[x % alpha.size()])); x /= alpha.size(); }
+	}
+	std::string name() const { return fixed.empty() ? fmt("lines%d-%d_alpha%d", nlmin, nl, (int)alpha.size()) : fmt("fixed%d", (int)fixed.size()); }
+};
+// eolmask: bit 0 = LF + final newline, 1 = CRLF + final newline, 2 = LF without final newline, 3 = CRLF without final newline
+enum { EOL_ALL = 15, EOL_LF = 5 };
+static void for_each_text(const TextSet& ts, int eolmask, int chunk, const std::string& tag, const std::function<void(IniCase&)>& body) {
+	if (vf::deadline_passed()) { vf::cap_hit("deadline before INI family " + tag); return; }
+	double t0 = vf::now_s(), c0 = cpu_children();
+	vf::parallel(ts.n * 4, [&](uint64_t it) {
+		if (vf::deadline_passed()) { static bool said = false; if (!said) { said = true; vf::cap_hit("deadline inside INI enumeration"); } return; }
+		uint64_t ti = it / 4; int var = (int)(it % 4);
+		if (!(eolmask >> var & 1)) return;
 		IniCase c; c.crlf = (var & 1) != 0; c.finalnl = (var & 2) == 0;
-		if (len == 0 && !c.finalnl) return;               // "" once: with 0 lines the final-newline variants coincide
-		if (len <= 1 && c.crlf && !c.finalnl) return;      // a single unterminated line has no line ending to vary
-		for (int j = 0; j < len; j++) { c.lines.push_back((int)(x % NLINES)); x /= NLINES; }
-		ini_histories(c, pl.k, pl.allw, pl.withEmpty ? NOPS : NOPS_NONEMPTY);
-	}, 8);
-	vf::setinfo(fmt("wall_s.ini_lines%d-%d_sets%d%s", pl.nlmin, pl.nl, pl.k, pl.allw ? "_allw" : "") + (pl.withEmpty ? "_emptyvalues" : ""), fmt("%.1f", vf::now_s() - t0));
+		ts.get(ti, c.lines);
+		size_t len = c.lines.size();
+		if (len == 0 && (!c.finalnl || c.crlf)) return;   // "" once: with 0 lines all variants coincide
+		if (len == 1 && c.crlf && !c.finalnl) return;      // a single unterminated line has no line ending to vary
+		body(c);
+	}, chunk);
+	family_done("ini_" + tag, t0, c0);
 }
 
-// every table of R x C cells over the alphabet, written cell-wise and as arrays
-static void csv_shape(int R, int C) {
-	int n = R * C;
-	uint64_t total = 1; for (int i = 0; i < n; i++) total *= NCELLS;
-	const uint64_t CH = 169;
+// Plan: every text of the set x every history of kmin..k ops x every way of writing in `modes`
+//  D destructor only; W write() after the last set, destructor later; P write() after every proper prefix of the history;
+//  O write(otherPath) after the last set; R IniFile(path,false) + write() after the last set; B operator[] + destructor; b operator[] + write()
+//  opsel 0: all 15 ops; 1: the 10 ops with non-empty values; 2: only histories with at least one empty value (complement of 1)
+struct Plan { const char* tag; TextSet ts; int eolmask; int kmin, k; int opsel; const char* modes; int chunk; };
+static void ini_modes(IniCase& c, const char* modes) {
+	int len = (int)c.ops.size();
+	for (const char* m = modes; *m; m++) {
+		c.other = c.noauto = c.viaIndex = false;
+		switch (*m) {
+		case 'D': c.wpos = -1; run_ini(c); break;
+		case 'W': c.wpos = len; run_ini(c); break;
+		case 'P': for (int w = 0; w < len; w++) { c.wpos = w; run_ini(c); } break;
+		case 'O': if (len > 0) { c.other = true; c.wpos = len; run_ini(c); } break;
+		case 'R': c.noauto = true; c.wpos = len; run_ini(c); break;
+		case 'B': if (len > 0) { c.viaIndex = true; c.wpos = -1; run_ini(c); } break;
+		case 'b': if (len > 0) { c.viaIndex = true; c.wpos = len; run_ini(c); } break;
+		}
+	}
+	c.other = c.noauto = c.viaIndex = false;
+}
+static void ini_plan(const Plan& pl) {
+	int nops = pl.opsel == 1 ? NOPS_NONEMPTY : NOPS;
+	std::string tag = std::string(pl.tag) + "_" + pl.ts.name() + fmt("_sets%d-%d_%s", pl.kmin, pl.k, pl.modes) + (pl.opsel == 1 ? "_nonempty" : pl.opsel == 2 ? "_emptyvalues" : "");
+	for_each_text(pl.ts, pl.eolmask, pl.chunk, tag, [&](IniCase& c) {
+		uint64_t n = 1;
+		for (int len = 0; len <= pl.k; len++, n *= nops) {
+			if (len < pl.kmin) continue;
+			for (uint64_t i = 0; i < n; i++) {
+				c.ops.clear();
+				uint64_t x = i;
+				bool hasEmpty = false;
+				for (int j = 0; j < len; j++) { c.ops.push_back((int)(x % nops)); if (c.ops.back() >= NOPS_NONEMPTY) hasEmpty = true; x /= nops; }
+				if (pl.opsel == 2 && !hasEmpty) continue;
+				ini_modes(c, pl.modes);
+			}
+		}
+	});
+}
+// histories of 20 sets (step 1 and 3 through the 15 ops from every starting op: every name gets every value incl. "") with a write() at the given positions
+static void ini_macros(const char* tag0, const TextSet& ts, int eolmask, const std::vector<int>& wpos, int rotstep = 1) {
+	for_each_text(ts, eolmask, 1, std::string(tag0) + "_20set_macros_" + ts.name(), [&](IniCase& c) {
+		for (int step = 1; step <= 3; step += 2)
+			for (int rot = 0; rot < NOPS; rot += rotstep) {
+				c.ops.clear();
+				for (int i = 0; i < 20; i++) c.ops.push_back((rot + i * step) % NOPS);
+				for (size_t w = 0; w < wpos.size(); w++) { c.wpos = wpos[w]; run_ini(c); }
+			}
+	});
+}
+// fixed long texts: more lines than the 16 IniFile reserves, exactly 16 / 15 lines (insertions cross the capacity), lines of 254 and 300 characters
+static std::vector<std::string> long_texts() {
+	std::vector<std::string> t;
+	t.push_back("02571346890257134689");       // 20 lines, every line of the alphabet twice (repeated sections and keys)
+	t.push_back("52075130457981246");          // 17
+	t.push_back("0257134257713468");           // 16
+	t.push_back("257013425771346");            // 15
+	t.push_back("2222222222222222222222");     // 22 times the same entry
+	t.push_back("0777777777777777771");        // a header, 17 blank lines, a header
+	t.push_back("A");                          // one comment of 254 characters
+	t.push_back("B");                          // one entry of 300 characters
+	t.push_back("0A2B5");
+	t.push_back("5A0B2A1B3AB77AB");
+	return t;
+}
+
+// every table of R x C cells over the alphabet (cell letters), written cell-wise and as arrays, in the writer configurations x readers of `combos` ("Da","Sa","Ss","Ta","Ts")
+static void csv_shape(int R, int C, const char* alpha, const char* combos) {
+	int n = R * C, A = (int)strlen(alpha);
+	uint64_t total = 1; for (int i = 0; i < n; i++) total *= A;
+	const uint64_t CH = 64;
 	if (vf::deadline_passed()) { vf::cap_hit(fmt("deadline before CSV shape %dx%d", R, C)); return; }
-	double t0 = vf::now_s();
+	double t0 = vf::now_s(), c0 = cpu_children();
 	vf::parallel((total + CH - 1) / CH, [&](uint64_t blk) {
 		if (vf::deadline_passed()) { static bool said = false; if (!said) { said = true; vf::cap_hit("deadline inside CSV enumeration"); } return; }
 		for (uint64_t i = blk * CH; i < (blk + 1) * CH && i < total; i++) {
 			std::string cells; uint64_t x = i;
-			for (int j = 0; j < n; j++) { cells += char('a' + x % NCELLS); x /= NCELLS; }
-			run_csv('C', R, C, cells);
-			run_csv('A', R, C, cells);
+			for (int j = 0; j < n; j++) { cells += alpha[x % A]; x /= A; }
+			for (const char* cb = combos; cb[0] && cb[1]; cb += 2) {
+				// a one-column file contains no separator: an unconfigured reader cannot learn the writer's dialect from it, which the statement does not demand
+				if (C == 1 && cb[0] != 'D' && cb[1] == 'a') continue;
+				run_csv('C', R, C, cells, cb[0], cb[1]);
+				run_csv('A', R, C, cells, cb[0], cb[1]);
+			}
 		}
 	}, 4);
-	vf::setinfo(fmt("wall_s.csv_%dx%d", R, C), fmt("%.1f", vf::now_s() - t0));
+	family_done(fmt("csv_%dx%d_alpha%d_%s", R, C, A, combos), t0, c0);
 }
+static const char ALLCOMBOS[] = "DaSaSsTaTs";
 
 int main(int argc, char** argv) {
 	vf::init(argc, argv, "C18", PART);
-	C_EVAL = vf::counter("evaluations"); C_DISTINCT = vf::counter("distinct_nontrivial");
+	init_lines(); init_cells(); init_report();
+	C_EVAL = vf::counter("evaluations"); C_DISTINCT = vf::counter("distinct_nontrivial"); C_UNLISTED = vf::counter("failing_cases_beyond_the_8_listed_per_signature");
 	W_NOEOL = vf::counter("w.ini_text_without_final_newline"); W_NOEOL_ENTRY_LAST = vf::counter("w.ini_last_line_is_entry_without_newline"); W_CRLF = vf::counter("w.ini_crlf_text");
 	W_NEWSEC = vf::counter("w.ini_set_creates_section"); W_NEWKEY = vf::counter("w.ini_set_adds_key_to_existing_section"); W_CHANGED = vf::counter("w.ini_set_changes_existing_value");
 	W_SAMEVAL = vf::counter("w.ini_set_same_value"); W_BARE_TOP = vf::counter("w.ini_bare_name_to_top_level"); W_BARE_SEC = vf::counter("w.ini_bare_name_to_first_section");
 	W_REWRITTEN = vf::counter("w.ini_file_rewritten"); W_NOTREWRITTEN = vf::counter("w.ini_file_left_alone"); W_UNTOUCHED = vf::counter("w.ini_untouched_values_checked");
 	W_COMMENTS = vf::counter("w.ini_comment_lines_checked"); W_SETCHECKS = vf::counter("w.ini_set_values_checked"); W_DUPSEC = vf::counter("w.ini_repeated_section_header");
 	W_EXPLICIT = vf::counter("w.ini_explicit_write"); W_MIDWRITE = vf::counter("w.ini_write_then_more_sets"); W_TOPKEYS = vf::counter("w.ini_entries_before_first_header");
-	W_LONGHIST = vf::counter(OTHER_PART_W "ini_histories_longer_than_3"); W_INDENTED = vf::counter("w.ini_indented_entry");
+	W_LONGHIST = vf::counter(OTHER_PART_W "ini_histories_longer_than_3"); W_INDENTED = vf::counter("w.ini_first_entry_indented");
+	W_EMPTYVAL = vf::counter("w.ini_set_empty_value"); W_VALEQ = vf::counter("w.ini_value_containing_equals_sign"); W_COMMENTEQ = vf::counter("w.ini_comment_containing_equals_sign");
+	W_INDENTCOMMENT = vf::counter("w.ini_indented_comment"); W_DUPKEYDIFF = vf::counter("w.ini_entry_defined_twice_with_different_values");
+	W_TWOSECDIFF = vf::counter("w.ini_same_key_in_two_sections_with_different_values");
+	W_OTHERPATH = vf::counter("w.ini_write_to_other_path"); W_NOAUTO = vf::counter("w.ini_no_autosave_then_write"); W_VIAINDEX = vf::counter("w.ini_assigned_through_index_operator");
+	W_VIAINDEX_CHANGED = vf::counter("w.ini_index_operator_changes_existing_value");
+	W_MANYLINES = vf::counter(OTHER_PART_W "ini_text_of_more_than_16_lines"); W_GROWLINES = vf::counter(OTHER_PART_W "ini_insertions_beyond_16_lines"); W_LONGLINE = vf::counter(OTHER_PART_W "ini_line_of_254_or_more_characters");
+	W_STRUCT5 = vf::counter(DEEP_ONLY_W "ini_text_of_5_lines");
 	W_CSV_QUOTED = vf::counter("w.csv_cells_needing_quotes"); W_CSV_NUM = vf::counter("w.csv_number_cells"); W_CSV_EMPTY = vf::counter("w.csv_empty_cells");
 	W_CSV_ARRAY = vf::counter("w.csv_tables_written_as_arrays"); W_CSV_CELLWISE = vf::counter("w.csv_tables_written_cellwise"); W_CSV_BIG = vf::counter(OTHER_PART_W "csv_shape_macros");
-	W_CSV_CELLS = vf::counter("w.csv_cells_compared"); W_CSV_SEMI = vf::counter("w.csv_semicolon_cells"); W_CSV_BYNAME = vf::counter(OTHER_PART_W "csv_cells_read_by_column_name");
+	W_CSV_CELLS = vf::counter("w.csv_cells_compared"); W_CSV_SEMI = vf::counter("w.csv_cells_containing_semicolon"); W_CSV_BYNAME = vf::counter(OTHER_PART_W "csv_cells_read_by_column_name");
+	W_CSV_CFG_SEMI = vf::counter("w.csv_written_with_semicolon_separator_and_decimal_comma"); W_CSV_CFG_TAB = vf::counter("w.csv_written_with_tab_separator");
+	W_CSV_AUTO_NONDEFAULT = vf::counter("w.csv_nondefault_dialect_read_by_autodetection"); W_CSV_READER_CONFIGURED = vf::counter("w.csv_nondefault_dialect_read_by_configured_reader");
+	W_CSV_PLUSEXP = vf::counter("w.csv_number_with_plus_exponent"); W_CSV_FRACTION15 = vf::counter("w.csv_number_with_15_fraction_digits"); W_CSV_DECIMAL_COMMA = vf::counter("w.csv_fraction_written_with_decimal_comma");
+	W_CSV_FLOAT = vf::counter(OTHER_PART_W "csv_float_cells"); W_CSV_HEAPSTR = vf::counter(OTHER_PART_W "csv_string_cells_of_8_or_more_characters"); W_CSV_LONGLINE = vf::counter(OTHER_PART_W "csv_line_of_255_or_more_characters");
+	W_CSV_SIX = vf::counter(DEEP_ONLY_W "csv_tables_of_six_cells");
 	if (vf::opt.replay) { vf::parallel(1, [&](uint64_t) { run_case(vf::opt.kase); }); return vf::finish(); }
 	bool T = vf::opt.thorough();
+	(void)T;
 
 #ifdef C18_DEEP
 	// the large products, built without sanitizer (value and order oracles only; the ASan part covers the smaller spaces)
-	(void)T;
-	{ Plan p = { 0, 4, 3, false, true }; ini_plan(p); }   // the same with empty values among the sets
-	{ Plan p = { 0, 5, 2, false }; ini_plan(p); }   // texts <= 5 lines x histories <= 2
-	{ Plan p = { 0, 4, 3, false }; ini_plan(p); }   // texts <= 4 lines x histories <= 3
-	{ Plan p = { 0, 3, 3, true }; ini_plan(p); }    // texts <= 3 lines x histories <= 3 x write() after every prefix
-	csv_shape(3, 2);
-	csv_shape(2, 3);
-	vf::sample("ini:L:0:3:01234:jfb = 5-line text \"[a]\\n[ab]\\nx=1\\ny=2\\n  z=3\" (no final newline), set(\"x\",\"w w\"); set(\"ab/y\",\"w w\"); set(\"a/x\",\"w w\"); write(); ~IniFile()");
-	vf::sample("ini:C:1:1:570:dic (write() after every prefix): text \"# c\\r\\n\\r\\n[a]\\r\\n\", set(\"a/n\",\"w w\"); write(); set(\"x\",\"v\"); set(\"a/n\",\"v\"); ~IniFile()");
-	vf::sample("csv:A:3x2:<every one of 13^6 tables> written as arrays and cell by cell, read back with data()");
+	{ Plan p = { "d1", TextSet(FULL10, 0, 3), EOL_ALL, 0, 2, 0, "D", 4 }; ini_plan(p); }        // full alphabet, texts <= 3 lines x histories <= 2 over all 15 ops
+	{ Plan p = { "d1b", TextSet(FULL10, 4, 4), EOL_LF, 0, 2, 0, "D", 4 }; ini_plan(p); }        // 4-line texts (LF; the CRLF variants with histories <= 1 are in the ASan part)
+	{ Plan p = { "d2", TextSet(STRUCT6, 5, 5), EOL_LF, 0, 2, 0, "D", 2 }; ini_plan(p); }        // structural alphabet, 5-line texts x histories <= 2
+	{ Plan p = { "d3", TextSet(STRUCT7, 3, 3), EOL_ALL, 3, 3, 0, "D", 1 }; ini_plan(p); }       // structural alphabet, 3-line texts x histories of 3 sets
+	{ Plan p = { "d4", TextSet(STRUCT7, 0, 2), EOL_ALL, 3, 3, 0, "DW", 1 }; ini_plan(p); }      // texts <= 2 lines x histories of 3 sets, also write() + destructor
+	{ Plan p = { "d5", TextSet(FULL10, 0, 3), EOL_LF, 2, 2, 0, "PORb", 2 }; ini_plan(p); }      // the other ways of writing on histories of 2 sets
+	{ Plan p = { "d6", TextSet(FULL10, 3, 3), EOL_ALL, 2, 2, 0, "W", 2 }; ini_plan(p); }        // full alphabet, 3-line texts x histories of 2 sets, write() + destructor
+	csv_shape(3, 2, CSV9, "DaSsTa");
+	csv_shape(2, 3, CSV9, "DaSsTa");
+	vf::sample("ini:L:0:-1:01245:jf = 5-line text \"[a]\\n[ab]\\nx=1\\n  z=3\\n# c\" (no final newline), set(\"x\",\"w w\"); set(\"ab/y\",\"w w\"); ~IniFile()");
+	vf::sample("ini:C:1:-1:5790:kb = text \"# c\\r\\n\\r\\nx=5\\r\\n[a]\\r\\n\", set(\"a/x\",\"\"); set(\"a/x\",\"w w\"); ~IniFile()");
+	vf::sample("csv:A:3x2:<every one of 9^6 tables> written as arrays and cell by cell in the default, ';' (reader configured) and tab (reader unconfigured) configurations, read back with data()");
 	return vf::finish();
 #else
-	// ---------------- INI (a): quick and thorough: texts <= 4 lines x histories <= 2; thorough adds the 5-line texts with histories <= 1
-	{ Plan p = { 0, 4, 2, false }; ini_plan(p); }
-	{ Plan p = { 0, T ? 4 : 3, 2, false, true }; ini_plan(p); } // histories that set empty values (a section may then receive empty and non-empty new keys at once)
-	if (T) { Plan p = { 5, 5, 1, false }; ini_plan(p); }
-	// ---------------- INI (b): histories of 20 sets with a write() after 0..20 of them, on all texts of <= 3 lines
-	{
-		uint64_t ntexts = 1 + 8 + 64 + 512;
-		double t0 = vf::now_s();
-		vf::parallel(ntexts * 4, [&](uint64_t it) {
-			uint64_t ti = it / 4; int var = (int)(it % 4);
-			int len = ti < 1 ? 0 : ti < 9 ? 1 : ti < 73 ? 2 : 3;
-			uint64_t x = ti - (len == 0 ? 0 : len == 1 ? 1 : len == 2 ? 9 : 73);
-			IniCase c; c.crlf = (var & 1) != 0; c.finalnl = (var & 2) == 0;
-			if (len == 0 && !c.finalnl) return;
-			if (len <= 1 && c.crlf && !c.finalnl) return;
-			for (int j = 0; j < len; j++) { c.lines.push_back((int)(x % NLINES)); x /= NLINES; }
-			for (int step = 1; step <= 3; step += 2)
-				for (int rot = 0; rot < NOPS; rot++) {
-					c.ops.clear();
-					for (int i = 0; i < 20; i++) c.ops.push_back((rot + i * step) % NOPS); // step 1 and 3 over all 15 ops: every name gets every value incl. ""
-					static const int wpT[] = { -1, 0, 1, 10, 19, 20 }, wpQ[] = { -1, 10, 20 };
-					for (int w = 0; w < (T ? 6 : 3); w++) { c.wpos = T ? wpT[w] : wpQ[w]; run_ini(c); }
-				}
-		}, 4);
-		vf::setinfo("wall_s.ini_20set_macros", fmt("%.1f", vf::now_s() - t0));
+	// ---------------- INI (a): the core products
+	{ Plan p = { "a1", TextSet(FULL10, 0, 3), EOL_ALL, 0, 1, 0, "DWRB", 8 }; ini_plan(p); }     // full alphabet, texts <= 3 lines x histories <= 1 x {destructor, write(), no autosave, operator[]}
+	{ Plan p = { "a2", TextSet(FULL10, 0, 2), EOL_ALL, 1, 1, 0, "Ob", 8 }; ini_plan(p); }       // texts <= 2 lines x 1 set x {write(otherPath), operator[] + write()}
+	{ Plan p = { "a3", TextSet(FULL10, 0, 2), EOL_ALL, 2, 2, 0, "DW", 2 }; ini_plan(p); }       // texts <= 2 lines x histories of 2 sets
+	{ Plan p = { "a4", TextSet(FULL10, 0, 1), EOL_ALL, 2, 2, 0, "PORBb", 1 }; ini_plan(p); }    // texts <= 1 line x histories of 2 sets x the other ways of writing (write() after every prefix, ...)
+	{ Plan p = { "a5", TextSet(STRUCT7, 3, 3), EOL_LF, 2, 2, 0, "D", 2 }; ini_plan(p); }        // structural alphabet, 3-line texts x histories of 2 sets
+	{ Plan p = { "a6", TextSet(STRUCT7, 4, 4), EOL_LF, 0, 1, 0, "D", 8 }; ini_plan(p); }        // structural alphabet, 4-line texts x histories <= 1
+	if (T) {
+		{ Plan p = { "t1", TextSet(FULL10, 4, 4), EOL_ALL, 0, 1, 0, "D", 8 }; ini_plan(p); }    // full alphabet, 4-line texts x histories <= 1
+		{ Plan p = { "t2", TextSet(FULL10, 3, 3), EOL_LF, 2, 2, 0, "D", 2 }; ini_plan(p); }     // full alphabet, 3-line texts x histories of 2 sets
+		{ Plan p = { "t3", TextSet(FULL10, 0, 1), EOL_ALL, 3, 3, 0, "DP", 1 }; ini_plan(p); }   // texts <= 1 line x histories of 3 sets, write() after every prefix
+		{ Plan p = { "t4", TextSet(FULL10, 3, 3), EOL_ALL, 1, 1, 0, "Ob", 8 }; ini_plan(p); }   // 3-line texts too for write(otherPath) and operator[] + write()
 	}
-	// ---------------- CSV (a): every table over the 13-cell alphabet of the shapes 1x1 1x2 2x1 2x2 3x1 1x3 (3x2 and 2x3: part c18_deep)
-	csv_shape(1, 1); csv_shape(1, 2); csv_shape(2, 1); csv_shape(2, 2); csv_shape(3, 1); csv_shape(1, 3);
-	// ---------------- CSV (b): shape macros: every shape up to 30x8, 13 diagonal fills + 13 mostly-uniform fills
-	vf::parallel(30 * 8, [&](uint64_t i) {
-		int R = (int)(i / 8) + 1, C = (int)(i % 8) + 1;
-		for (int p = 0; p < 2 * NCELLS; p++) {
-			std::string cells;
-			for (int r = 0; r < R; r++) for (int c = 0; c < C; c++) cells += char('a' + (p < NCELLS ? (r * C + c + p) % NCELLS : ((r + c) % 5 == 0 ? (p + r + c) % NCELLS : p - NCELLS)));
-			run_csv('C', R, C, cells);
-			run_csv('A', R, C, cells);
-		}
-	});
+	// ---------------- INI (b): histories of 20 sets with a write() after 0..20 of them
+	{
+		static const int wpA[] = { -1, 10, 20 }, wpB[] = { 0, 1, 19 };
+		ini_macros("b", TextSet(FULL10, 0, T ? 3 : 2), EOL_ALL, std::vector<int>(wpA, wpA + 3));
+		if (T) ini_macros("b2", TextSet(FULL10, 0, 2), EOL_ALL, std::vector<int>(wpB, wpB + 3));
+	}
+	// ---------------- INI (c): fixed long texts (more than 16 lines; lines of 254 and 300 characters) x histories <= 2 x {destructor, write()} and the 20-set macros
+	{
+		TextSet lt(long_texts());
+		{ Plan p = { "c", lt, EOL_ALL, 0, 2, 0, "DWR", 1 }; ini_plan(p); }
+		std::vector<int> wp; wp.push_back(-1); wp.push_back(10); wp.push_back(20);
+		ini_macros("c", lt, EOL_ALL, wp, T ? 1 : 5);
+	}
+	// ---------------- CSV (a): every table of the small shapes, in every writer configuration x reader
+	csv_shape(1, 1, CSV19, ALLCOMBOS); csv_shape(1, 2, CSV19, ALLCOMBOS); csv_shape(2, 1, CSV19, ALLCOMBOS);
+	csv_shape(3, 1, CSV15, ALLCOMBOS); csv_shape(1, 3, CSV15, ALLCOMBOS);
+	csv_shape(2, 2, CSV15, T ? ALLCOMBOS : "DaSaTs");
+	// ---------------- CSV (b): shape macros: every shape up to 30x8, 19 diagonal fills + 19 mostly-uniform fills
+	// (quick: the non-default configurations with 3 of the diagonal fills only)
+	{
+		double t0 = vf::now_s(), c0 = cpu_children();
+		vf::parallel(30 * 8, [&](uint64_t i) {
+			int R = (int)(i / 8) + 1, C = (int)(i % 8) + 1;
+			for (int p = 0; p < 2 * NCELLS; p++) {
+				std::string cells;
+				for (int r = 0; r < R; r++) for (int c = 0; c < C; c++) cells += char('a' + (p < NCELLS ? (r * C + c + p) % NCELLS : ((r + c) % 5 == 0 ? (p + r + c) % NCELLS : p - NCELLS)));
+				for (const char* cb = ALLCOMBOS; cb[0]; cb += 2) {
+					if (C == 1 && cb[0] != 'D' && cb[1] == 'a') continue;
+					if (!T && cb[0] != 'D' && !(p == 0 || p == 6 || p == 13)) continue;
+					run_csv('C', R, C, cells, cb[0], cb[1]);
+					run_csv('A', R, C, cells, cb[0], cb[1]);
+				}
+			}
+		});
+		family_done("csv_shape_macros", t0, c0);
+	}
 
-	vf::sample("ini:L:0:-1:0235:- = text \"[a]\\nx=1\\ny=2\\n# c\" (no final newline), no set(), destructor; fresh IniFile must return a/x=1, a/y=2; raw order [entry a/x, entry a/y, comment '# c']");
+	vf::sample("ini:L:0:-1:0235:- = text \"[a]\\nx=1\\ny = a=b\\n# c\" (no final newline), no set(), destructor; fresh IniFile must return a/x=1, a/y=a=b; raw order [entry a/x, entry a/y, comment '# c']");
 	vf::sample("ini:C:1:2:2104:di = text \"x=1\\r\\n[ab]\\r\\n[a]\\r\\n  z=3\\r\\n\", set(\"a/n\",\"w w\"); set(\"x\",\"v\"); write(); ~IniFile(): fresh must return x=v (top level), a/n=w w, a/z=3");
-	vf::sample("ini 20-set histories: set(a/x,v) set(a/x,w w) set(a/n,v) ... cycling over {a/x,a/n,b/y,c/k,x} x {v,'w w'} with write() after 0/1/10/19/20 sets, on all texts of <= 3 lines");
-	vf::sample("csv:C:2x2:gmdk = rows [\",\", \"\\\"q\\\"\"], [123456789012345, \" \"] written cell by cell, read back with data()");
-	vf::sample("csv:A:30x8:<diagonal fill> = 30 rows x 8 columns over {1,-2.5,1e-7,123456789012345,\"\",a,\",\",\";\",\"\\\"\",\"'\",\" \",\"a,b\",\"\\\"q\\\"\"} written as arrays, read with nextRow()/[i]/[name]");
+	vf::sample("ini:L:1:1:068:c:o = text \"[a]\\n; x=9\\n  # c\\n\", set(\"a/n\",\"v\"); write(otherPath): the other file and, after destruction, the original must both hold a/n=v and both comments");
+	vf::sample("ini 20-set histories: set(a/x,v) set(a/x,w w) set(a/n,v) ... cycling over {a/x,a/n,ab/y,c/k,x} x {v,'w w',''} with write() after 0/1/10/19/20 sets");
+	vf::sample("csv:C:2x2:gmdk:Ss = rows [\",\", \"\\\"q\\\"\"], [123456789012345, \" \"] written cell by cell with ';' as separator and ',' as decimal, read back with data() by a reader given the same settings");
+	vf::sample("csv:A:30x8:<diagonal fill>:Ta = 30 rows x 8 columns over the 19 cells written as arrays with tab separators, read with nextRow()/[i]/[name] by an unconfigured reader");
 	return vf::finish();
 #endif
 }
